@@ -94,7 +94,9 @@ def cases(tier, seed):
                 v = rnd.choice(values(ty, rnd, 2))
                 ops.append("rt.set %d %s %s" % (i, rnd.choice([ty, ty, ty, rnd.choice(TYPES)]), hexv(ty, v)))
             elif r < 0.5:
-                ops.append("rt.%s %d %s %s" % (rnd.choice(["bset", "bclr"]), i, ty, hexv(ty, rnd.choice([1, 2, 1 << (BITS[ty] - 1), rnd.getrandbits(BITS[ty]), 0xffff]))))
+                # mostly the register's own type; now and then an operand of another type (refused as invalid, no change)
+                oty = ty if rnd.random() < 0.8 else rnd.choice(TYPES)
+                ops.append("rt.%s %d %s %s" % (rnd.choice(["bset", "bclr"]), i, oty, hexv(oty, rnd.choice([1, 2, 1 << (BITS[oty] - 1), rnd.getrandbits(BITS[oty]), 0xffff]))))
             elif r < 0.8:
                 n = rnd.randint(0, 5)
                 if rnd.random() < 0.3 and n:
